@@ -4,6 +4,10 @@
  *    C09_KILL_MODE=after  : just after it completed
  *    C09_KILL_MODE=short  : if it is a write/pwrite, perform only the first half of it (n/2 bytes), then kill
  * (SIGKILL to the whole process, so no atexit handler, no stdio flush, no other thread survives).
+ * Write faults (independent of the kill): C09_FAULT_AT=<n> C09_FAULT_MODE=
+ *    bitflip : numbered write n stores the buffer with one bit inverted (middle byte) and reports success
+ *    shorten : it stores all but the last byte and reports the full count (silent truncation)
+ *    enospc / eio : it stores nothing and fails with that errno
  * time() reports C09_FAKE_TIME when set, and statfs() then reports fixed total/free block counts (the content file records the
  * free space of every disk), so that a killed run and its un-killed twin write the same bytes.
  *
@@ -55,6 +59,8 @@ static char* fd_path[FD_MAX];
 static int fd_wr[FD_MAX];
 static long counter;
 static long kill_at = -1;
+static long fault_at = -1;
+static int fault_mode; /* 0 none, 1 bitflip, 2 shorten, 3 enospc, 4 eio */
 static int kill_mode; /* 0 none, 1 before, 2 after, 3 short */
 static const char* match;
 static int log_fd = -1;
@@ -98,6 +104,20 @@ static void init(void)
 			kill_mode = 2;
 		else if (strcmp(e, "short") == 0)
 			kill_mode = 3;
+	}
+	e = getenv("C09_FAULT_AT");
+	if (e && *e)
+		fault_at = strtol(e, 0, 10);
+	e = getenv("C09_FAULT_MODE");
+	if (e) {
+		if (strcmp(e, "bitflip") == 0)
+			fault_mode = 1;
+		else if (strcmp(e, "shorten") == 0)
+			fault_mode = 2;
+		else if (strcmp(e, "enospc") == 0)
+			fault_mode = 3;
+		else if (strcmp(e, "eio") == 0)
+			fault_mode = 4;
 	}
 	e = getenv("C09_LOG");
 	if (e && *e)
@@ -293,6 +313,33 @@ static ssize_t write_common(int kind, int fd, const void* buf, size_t count, off
 		}
 		logf_("%ld %s %s count=%lu SHORT %lu\n", n, kind == 0 ? "write" : "pwrite", fd_path[fd], (unsigned long)count, (unsigned long)half);
 		die("short", n);
+	}
+	if (fault_mode && n == fault_at && count > 0) {
+		if (fault_mode == 1 || fault_mode == 2) {
+			unsigned char* copy = malloc(count);
+			size_t wr = fault_mode == 2 ? count - 1 : count;
+			memcpy(copy, buf, count);
+			if (fault_mode == 1)
+				copy[count / 2] ^= 0x10;
+			if (wr) {
+				if (kind == 0)
+					r_write(fd, copy, wr);
+				else
+					r_pwrite64(fd, copy, wr, off);
+			}
+			free(copy);
+			r = count;
+			errno = 0;
+		} else {
+			r = -1;
+			errno = fault_mode == 3 ? ENOSPC : EIO;
+		}
+		e = errno;
+		logf_("%ld %s %s count=%lu FAULT%d = %ld\n", n, kind == 0 ? "write" : "pwrite", fd_path[fd], (unsigned long)count, fault_mode, (long)r);
+		after(n);
+		errno = e;
+		pthread_mutex_unlock(&mu);
+		return r;
 	}
 	switch (kind) {
 	case 0 : r = r_write(fd, buf, count); break;
